@@ -20,6 +20,22 @@ pub fn die(msg: &str) -> ! {
     std::process::exit(2)
 }
 
+fn word_called(text: &str, name: &str) -> bool {
+    let mut start = 0;
+    while let Some(i) = text[start..].find(name) {
+        let a = start + i;
+        let b = a + name.len();
+        let before_ok = a == 0 || !text.as_bytes()[a - 1].is_ascii_alphanumeric() && text.as_bytes()[a - 1] != b'_';
+        let rest = text[b..].trim_start();
+        let after_ok = rest.starts_with('(') || rest.starts_with("::<") || rest.starts_with(":: <");
+        if before_ok && after_ok && !text[..a].trim_end().ends_with("fn") {
+            return true;
+        }
+        start = b;
+    }
+    false
+}
+
 fn main() {
     let args: Vec<String> = std::env::args().collect();
     let mut repo = String::from("/repo");
@@ -52,6 +68,7 @@ fn main() {
     let mut text = String::new();
     let mut records: Vec<serde_json::Value> = vec![];
     let mut stats: BTreeMap<String, usize> = BTreeMap::new();
+    let mut outside: Vec<spec::FnSpec> = vec![];
     for it in &items {
         let start_line = text.lines().count() + 1;
         match it {
@@ -80,6 +97,7 @@ fn main() {
                 let in_cone = fs.enss.iter().any(|c| wanted(&c.tags)) || wanted(&fs.cone)
                     || fs.loops.values().any(|l| l.invs.iter().any(|c| wanted(&c.tags)));
                 if !in_cone {
+                    outside.push(fs.clone());
                     continue;
                 }
                 let (s, rec) = rewrite::emit_fn(&idx, fs, &tags, debug_view, start_line, &mut stats);
@@ -87,6 +105,37 @@ fn main() {
                 text.push('\n');
                 records.push(rec);
             }
+        }
+    }
+    // cone closure: a contracted function that is CALLED from the cone but does not belong to
+    // it is emitted as a bodiless declaration (external_body, its `req` clauses, NO `ens`):
+    // the caller can rely on nothing about it, and its body raises no obligation for this
+    // property.  One pass suffices because declarations have no bodies.
+    let cone_text = text.clone();
+    let no_tags: Vec<String> = vec!["__declaration_only__".to_string()];
+    for fs in &outside {
+        let mut d = fs.clone();
+        d.external = true;
+        d.enss.retain(|c| c.tags.is_empty());
+        d.hints.clear();
+        d.loops.clear();
+        d.closures.clear();
+        let start_line = text.lines().count() + 1;
+        let mut scratch: BTreeMap<String, usize> = BTreeMap::new();
+        let (s, mut rec) = rewrite::emit_fn(&idx, &d, &no_tags, debug_view, start_line, &mut scratch);
+        let name = rec["out_name"].as_str().unwrap_or("").to_string();
+        let is_conv = name == "from" || name == "try_from";
+        let called = if is_conv {
+            cone_text.contains("::from(") || cone_text.contains("::try_from(") || cone_text.contains(".into()") || cone_text.contains(".try_into()")
+        } else {
+            word_called(&cone_text, &name)
+        };
+        if called {
+            rec["declaration_only"] = serde_json::json!(true);
+            text.push_str(&s);
+            text.push('\n');
+            records.push(rec);
+            *stats.entry("cone.declaration_only".to_string()).or_insert(0) += 1;
         }
     }
     std::fs::write(&out, &text).unwrap_or_else(|e| die(&format!("write {}: {}", out, e)));
